@@ -12,7 +12,8 @@
    A document is what md.entities_descriptor_from_string /
    entity_descriptor_from_string + mdie.to_dict make of the XML text (the XML
    parser itself is C12's subject); time stamps are epoch seconds; the outcome
-   of the signature verification CALL (returned b / raised e) is an input.
+   of the signature verification CALL (returned b / raised e) is an input
+   (Model/MdSig.v derives it from the signature layout of the document).
    Definitions only. *)
 From PV Require Import Lib.Base.
 Open Scope N_scope.
@@ -184,8 +185,12 @@ Record source := {
   s_doc : document
 }.
 
-(* parse_and_check_signature, as used by MetadataStore.load: the RETURN VALUE
-   is ignored there, only an exception keeps the source out *)
+(* parse_and_check_signature (mdstore.py 635-658, after the repair "metadata
+   whose signature verification returns False is refused"): a verification
+   that does not succeed is fatal whichever way the backend reports it - the
+   call raises (xmlsec1 backend) or returns False (then SignatureError is
+   raised here).  MetadataStore.load / imp only notice an exception. *)
+Definition SignatureError : str := s2l "SignatureError".
 Definition parse_and_check (now : Z) (check : bool) (s : source) : result mdmap :=
   match parse now check (d_body (s_doc s)) with
   | Err e => Err e
@@ -193,8 +198,27 @@ Definition parse_and_check (now : Z) (check : bool) (s : source) : result mdmap 
       if s_cert s then
         if negb (d_signed (s_doc s)) then Ok m
         else match s_kind s with
-             | Remote => match s_verdict s with Err e => Err e | Ok _ => Ok m end
+             | Remote => match s_verdict s with
+                         | Err e => Err e
+                         | Ok true => Ok m
+                         | Ok false => Err SignatureError
+                         end
              | _ => Err (s2l "AttributeError")    (* MetaDataFile gets security=None *)
+             end
+      else Ok m
+  end.
+
+(* the same BEFORE that repair: parse_and_check_signature returned False and
+   MetadataStore.load ignored the value - only an exception kept the source out *)
+Definition parse_and_check_before_fix (now : Z) (check : bool) (s : source) : result mdmap :=
+  match parse now check (d_body (s_doc s)) with
+  | Err e => Err e
+  | Ok m =>
+      if s_cert s then
+        if negb (d_signed (s_doc s)) then Ok m
+        else match s_kind s with
+             | Remote => match s_verdict s with Err e => Err e | Ok _ => Ok m end
+             | _ => Err (s2l "AttributeError")
              end
       else Ok m
   end.
@@ -204,6 +228,12 @@ Definition load_source (now : Z) (s : source) : result mdmap :=
   | Inline => parse now true (d_body (s_doc s))     (* no cert, check_validity always on *)
   | LocalFile => parse_and_check now true s
   | Remote => if s_http_ok s then parse_and_check now (s_check s) s else Err (s2l "SourceNotFound")
+  end.
+Definition load_source_before_fix (now : Z) (s : source) : result mdmap :=
+  match s_kind s with
+  | Inline => parse now true (d_body (s_doc s))
+  | LocalFile => parse_and_check_before_fix now true s
+  | Remote => if s_http_ok s then parse_and_check_before_fix now (s_check s) s else Err (s2l "SourceNotFound")
   end.
 
 Definition store := list (str * mdmap).
@@ -490,47 +520,7 @@ Definition entity_of_cfg (c : config) : result entity :=
                     e_affil := false; e_eattrs := [] |}
   end.
 
-(* ---------- observables ---------- *)
-Definition show_service (s : service) : val :=
-  VL [VS (sv_binding s); VS (sv_location s); show_option VS (sv_index s)].
-Definition show_services (r : result (list service)) : val := show_result (show_list show_service) r.
-Definition show_strs (l : list str) : val := VL (map VS l).
-Definition show_reqattr (a : reqattr) : val := VS (ra_name a).
-
-Inductive query :=
-| QService (eid typ svc binding : str)
-| QServiceAll (eid typ svc : str)
-| QCerts (eid descriptor use : str)
-| QEntityAttrs (eid : str) (names : list str)
-| QCategories (eid : str)
-| QAttrReq (eid : str) (index : option str)
-| QWithDescriptor (d : str) (universe : list str)
-| QKeys
-| QKnown (eid : str).
-
-Definition run_query (st : store) (q : query) : val :=
-  match q with
-  | QService e t s b => show_services (store_service st e t s b)
-  | QServiceAll e t s =>
-      show_result (show_list (fun g => VL [VS (fst g); show_list show_service (snd g)]))
-                  (service_all_loop st e t s false)
-  | QCerts e d u => show_result show_strs (store_certs st e d u)
-  | QEntityAttrs e names =>
-      show_result (fun res => VL [VZ (Z.of_nat (List.length res));
-                                  VL (map (fun n => show_option show_strs (aget n res)) names)])
-                  (store_entity_attributes st e)
-  | QCategories e => show_result show_strs (store_entity_categories st e)
-  | QAttrReq e i =>
-      show_option (fun p => VL [show_list show_reqattr (fst p); show_list show_reqattr (snd p)])
-                  (store_attribute_requirement st e i)
-  | QWithDescriptor d u =>
-      let res := store_with_descriptor st d in
-      VL (map (fun e => VB (mem_str e res)) u)
-  | QKeys => show_strs (store_keys st)
-  | QKnown e => VB (match store_get st e with Some _ => true | None => false end)
-  end.
-
-(* ---------- constants and the query universe of the correspondence ---------- *)
+(* ---------- constants ---------- *)
 Definition B_POST : str := s2l "urn:oasis:names:tc:SAML:2.0:bindings:HTTP-POST".
 Definition B_REDIRECT : str := s2l "urn:oasis:names:tc:SAML:2.0:bindings:HTTP-Redirect".
 Definition B_SOAP : str := s2l "urn:oasis:names:tc:SAML:2.0:bindings:SOAP".
@@ -560,6 +550,92 @@ Definition Q_NAMES := [ENTITY_CATEGORY; EC_SUPPORT; s2l "urn:x:other"; s2l "urn:
 Definition Q_INDEXES := [None; Some (s2l "1"); Some (s2l "2")].
 Definition Q_WD := [s2l "idpsso"; s2l "spsso"; s2l "attribute_authority"; s2l "pdp"; s2l "affiliation"].
 
+(* ---------- the typed wrappers of MetadataStore (mdstore.py: single_sign_on_service ...
+   assertion_consumer_service): role type fixed or "%s_descriptor" % typ, service, default binding ---------- *)
+Inductive wrapper := W_SSO | W_ACS | W_SLO | W_ARS | W_ATTR | W_AUTHZ | W_AIDR.
+Definition wrapper_service (w : wrapper) : str :=
+  match w with
+  | W_SSO => S_SSO | W_ACS => S_ACS | W_SLO => S_SLO | W_ARS => S_ARS
+  | W_ATTR => S_ATTR | W_AUTHZ => S_AUTHZ | W_AIDR => S_AIDR
+  end.
+Definition wrapper_default (w : wrapper) : str :=
+  match w with
+  | W_ACS => B_POST
+  | W_AUTHZ | W_AIDR => B_SOAP
+  | W_SSO | W_SLO | W_ARS | W_ATTR => B_REDIRECT
+  end.
+(* typ=None: AttributeError("Missing type specification") for single_logout_service and
+   assertion_id_request_service; artifact_resolution_service formats None into the key *)
+Definition wrapper_type (w : wrapper) (typ : option str) : result str :=
+  match w with
+  | W_SSO => Ok T_IDP
+  | W_ACS => Ok T_SP
+  | W_ATTR => Ok T_AA
+  | W_AUTHZ => Ok T_PDP
+  | W_SLO | W_AIDR => match typ with None => Err (s2l "AttributeError") | Some t => Ok (descr_key t) end
+  | W_ARS => Ok (descr_key (match typ with Some t => t | None => s2l "None" end))
+  end.
+Definition store_wrapper (st : store) (w : wrapper) (eid : str) (binding typ : option str) : result (list service) :=
+  match wrapper_type w typ with
+  | Err x => Err x
+  | Ok t => store_service st eid t (wrapper_service w) (match binding with Some b => b | None => wrapper_default w end)
+  end.
+Definition Q_WRAPPERS := [W_SSO; W_ACS; W_SLO; W_ARS; W_ATTR; W_AUTHZ; W_AIDR].
+Definition Q_WTYPS := [None; Some (s2l "idpsso"); Some (s2l "spsso")].
+Definition Q_WBINDINGS := [None; Some B_POST].
+
+(* MetadataStore.supported_entity_categories *)
+Definition store_supported_categories (st : store) (eid : str) : result (list str) :=
+  match store_entity_attributes st eid with
+  | Err x => Err x
+  | Ok res => Ok (match aget EC_SUPPORT res with Some l => l | None => [] end)
+  end.
+
+(* ---------- observables ---------- *)
+Definition show_service (s : service) : val :=
+  VL [VS (sv_binding s); VS (sv_location s); show_option VS (sv_index s)].
+Definition show_services (r : result (list service)) : val := show_result (show_list show_service) r.
+Definition show_strs (l : list str) : val := VL (map VS l).
+Definition show_reqattr (a : reqattr) : val := VS (ra_name a).
+
+Inductive query :=
+| QService (eid typ svc binding : str)
+| QServiceAll (eid typ svc : str)
+| QCerts (eid descriptor use : str)
+| QEntityAttrs (eid : str) (names : list str)
+| QCategories (eid : str)
+| QAttrReq (eid : str) (index : option str)
+| QWithDescriptor (d : str) (universe : list str)
+| QKeys
+| QKnown (eid : str)
+| QWrapper (w : wrapper) (eid : str) (binding typ : option str)
+| QSupported (eid : str).
+
+Definition run_query (st : store) (q : query) : val :=
+  match q with
+  | QService e t s b => show_services (store_service st e t s b)
+  | QServiceAll e t s =>
+      show_result (show_list (fun g => VL [VS (fst g); show_list show_service (snd g)]))
+                  (service_all_loop st e t s false)
+  | QCerts e d u => show_result show_strs (store_certs st e d u)
+  | QEntityAttrs e names =>
+      show_result (fun res => VL [VZ (Z.of_nat (List.length res));
+                                  VL (map (fun n => show_option show_strs (aget n res)) names)])
+                  (store_entity_attributes st e)
+  | QCategories e => show_result show_strs (store_entity_categories st e)
+  | QAttrReq e i =>
+      show_option (fun p => VL [show_list show_reqattr (fst p); show_list show_reqattr (snd p)])
+                  (store_attribute_requirement st e i)
+  | QWithDescriptor d u =>
+      let res := store_with_descriptor st d in
+      VL (map (fun e => VB (mem_str e res)) u)
+  | QKeys => show_strs (store_keys st)
+  | QKnown e => VB (match store_get st e with Some _ => true | None => false end)
+  | QWrapper w e b t => show_services (store_wrapper st w e b t)
+  | QSupported e => show_result show_strs (store_supported_categories st e)
+  end.
+
+(* ---------- the query universe of the correspondence ---------- *)
 Definition query_universe (eids : list str) : list query :=
   flat_map (fun e => flat_map (fun t => flat_map (fun s => map (fun b => QService e t s b) Q_BINDINGS) Q_SVCS) Q_TYPS) eids ++
   flat_map (fun e => flat_map (fun t => map (fun s => QServiceAll e t s) Q_SVCS) Q_TYPS) eids ++
@@ -569,7 +645,9 @@ Definition query_universe (eids : list str) : list query :=
   flat_map (fun e => map (fun i => QAttrReq e i) Q_INDEXES) eids ++
   map (fun d => QWithDescriptor d eids) Q_WD ++
   [QKeys] ++
-  map QKnown eids.
+  map QKnown eids ++
+  flat_map (fun e => flat_map (fun w => flat_map (fun b => map (fun t => QWrapper w e b t) Q_WTYPS) Q_WBINDINGS) Q_WRAPPERS) eids ++
+  map QSupported eids.
 
 (* a federation case: load every source into one store (each load may raise),
    then ask every query *)
